@@ -50,6 +50,15 @@ func c01Scenarios(thorough bool) []c01Scenario {
 					Init:     func(w *World) { c01Verdict(w, "T1", v.r1); c01Verdict(w, "T2", v.r2) },
 					Requests: []SetReqOrCall{req.build()}, CrashBudget: crash},
 				reqs: []c01Req{req}})
+			if order[0] == "T1" {
+				// the same Set with one reconcile call split: parked before any of its store calls while the other
+				// controller (and the other target's proposal) moves on, then continued with what it had read
+				out = append(out, c01Scenario{
+					sc: &Scenario{Name: fmt.Sprintf("S1h one Set on T1+T2, model rejects T1:%v T2:%v, one step split", v.r1, v.r2), Cfg: WorldConfig{Targets: []string{"T1", "T2"}},
+						Init:     func(w *World) { c01Verdict(w, "T1", v.r1); c01Verdict(w, "T2", v.r2) },
+						Requests: []SetReqOrCall{req.build()}, HoldBudget: 1, HoldDepth: 4},
+					reqs: []c01Req{req}})
+			}
 		}
 	}
 	// neighbours: a valid Set on {T1,T2} and a Set on {T1,T3} that T3's model rejects, in both log orders
@@ -207,6 +216,7 @@ func checkC01(rc *RunCtx) *Report {
 			}
 			out.Numbers["states"] += int64(x.States)
 			out.Numbers["transitions"] += int64(x.Transitions)
+			out.Numbers["split_steps"] += int64(x.Splits)
 			out.Numbers["idle_states"] += int64(x.IdleStates)
 			out.Numbers["oracle_evaluations"] += int64(evals)
 			out.Numbers["decided_transactions_seen"] += int64(decided)
